@@ -60,6 +60,8 @@ def gen_plan(seed, i, tier):
         init = {'settle': True, 'builder': {'version': ver, 'salt': rng.below(1 << 30), 'nodes': rng.below(5), 'shapes': shapes}}
         hist.maybe_attach(rng, init, 0.25, len(shapes))
 
+    unobserved = rng.chance(0.4)
+
     def conv():
         return {'op': 'Convert', 'headParts': dyn and rng.chance(0.8), 'removeParallax': rng.chance(0.7), 'calcBounds': rng.chance(0.7),
                 'fixBSXFlags': rng.chance(0.7), 'fixShaderFlags': rng.chance(0.7)}
@@ -71,7 +73,10 @@ def gen_plan(seed, i, tier):
         steps.append(conv())
         if rng.chance(0.8):
             steps.append({'op': 'Restart', 'raw': rng.chance(0.5)})
-    return {'property': PROP, 'profile': 'convert', 'run_index': i, 'init': init, 'steps': steps, 'timeout_s': 90}
+    plan = {'property': PROP, 'profile': 'convert', 'run_index': i, 'init': init, 'steps': steps, 'timeout_s': 90}
+    if unobserved:
+        plan['unobserved_source'] = True
+    return plan
 
 
 def jobs(tier, seed, pool):
